@@ -22,7 +22,15 @@ DESIGN_REF = "§5 C05"
 
 EMPH = dict(p_rq=0.7, p_reply=0.05, p_writer=0.05, p_tick=0.03, p_allcodes=0.3, p_eap=0.2, p_proxystate=0.3, p_mutate=0.3, p_wrongsecret=0.1, p_dup=0.05,
             rewrites=0.2, ttl=0.2, min_steps=6, max_steps=16)
-gen_run = WP.make_gen_run(ID, EMPH, 150, 3000)
+_gen_world = WP.make_gen_run(ID, EMPH, 150, 3000)
+
+
+def gen_run(exe, rng, tier):
+    # … and whole TCP connections through the real listener side: a request that fails parsing closes the connection
+    import worldhist as WH
+    return _gen_world(exe, rng, tier) + WH.run_parallel(exe, rng, 40 if tier == "quick" else 1500, WH.tcp_history)
+
+
 project = WP.make_project(ID)
 relevant_verdict = WP.make_relevant(ID)
 
